@@ -61,6 +61,28 @@ func evalC01Tree(c c01Tree) (fl *Failure) {
 	if !bytes.Equal(got, want) {
 		return failf("c01|serialize|bytes", "RESPBytes of built %s = %q, canonical encoding is %q", v, clip(got), clip(want))
 	}
+	// (1a) the bytes handed out belong to the caller: serializing another value afterwards does not change them
+	keep := append([]byte{}, got...)
+	if _, err := toMsg(resp.A(resp.B("another value"), resp.I(12345), resp.S("OK"))).RESPBytes(); err == nil && !bytes.Equal(got, keep) {
+		return failf("c01|serialize|aliased", "the bytes returned for %s changed from %q to %q when another value was serialized", v, clip(keep), clip(got))
+	}
+	// (1b) scalars built without the constructors: a struct literal, and a message whose exported Type is set afterwards
+	if v.Kind != resp.Array && !(v.Kind == resp.Bulk && v.Null) {
+		t := toMsg(v).Type
+		lit := (&proto.Message{Type: t}).SetBytes(append([]byte{}, v.Data...))
+		if b, err := lit.RESPBytes(); err != nil || !bytes.Equal(b, want) {
+			return failf("c01|serialize|literal", "RESPBytes of &proto.Message{Type: %v} with payload %q = %q, %v; canonical encoding is %q", t, clip(v.Data), clip(b), err, clip(want))
+		}
+		other := proto.StringMessage
+		if t == proto.StringMessage {
+			other = proto.ErrorMessage
+		}
+		re := proto.NewMessageWithType(other).SetBytes(append([]byte{}, v.Data...))
+		re.Type = t
+		if b, err := re.RESPBytes(); err != nil || !bytes.Equal(b, want) {
+			return failf("c01|serialize|retyped", "RESPBytes of a message whose Type was set to %v after its construction = %q, %v; canonical encoding is %q", t, clip(b), err, clip(want))
+		}
+	}
 	// (2) canonical bytes parse to the same tree, then clean end of stream
 	p := proto.NewParserWithBytes(append([]byte{}, want...))
 	m, err := p.Next()
